@@ -49,9 +49,20 @@ def run(ctx):
             ctx.finding(key, "history %s accepted=%s rejected by %s" % (r["hist"], r["acc"], clauses), r)
     for r in hist:
         ctx.distinct.add(tuple(r["hist"]))
-    # writer side: timestamps never decrease, are in 10us ticks since 2015-01-01
+    # the window on a reader that also has a dialect: histories mixing frames of a dialect message and of an unknown id
     defs = ctx.path("defs.json")
     ctx.run_mvh(["defs", "-out", defs])
+    rc, out = ctx.tlc("Gen_SignedDl", env={"DEFS": defs, "DIALECT": defs + ".allplus.json", "VSEED": ctx.seed}, tag="gen:signed_dl", timeout=900)
+    nvd = _stream.parse_vec_lines(out, ctx.path("sigdlvec.ndjson"))
+    if nvd < 20:
+        raise vf.Inconclusive("Gen_SignedDl produced %d vectors:\n%s" % (nvd, vf.tail(out, 30)))
+    trd = ctx.path("c07d.ndjson")
+    ctx.run_mvh(["c06d", "-aux", "c07", "-vectors", ctx.path("sigdlvec.ndjson"), "-out", trd, "-seed", ctx.seed, "-tier", ctx.tier])
+    drecs = _stream.validate_streams(ctx, trd, defs=defs, clause_filter=lambda c: c in {"window_gate", "valid_frame_delivered", "no_panic"})
+    for r in drecs:
+        ctx.distinct.add((r["tag"], tuple(x["k"] for x in r["results"])))
+    ctx.cov["histories_with_dialect"] = len(drecs)
+    # writer side: timestamps never decrease, are in 10us ticks since 2015-01-01
     trw = ctx.path("c07w.ndjson")
     ctx.run_mvh(["wlink", "-aux", "c07", "-out", trw, "-seed", ctx.seed, "-tier", ctx.tier])
     wrecs, frames = _writer.validate_links(ctx, trw, defs, clause_filter=lambda c: c in WRITER)
@@ -73,5 +84,5 @@ def run(ctx):
     ctx.cov["writer_frames_checked"] = frames
     ctx.cov["rule"] = ("all histories of the 12-symbol timestamp alphabet up to the exhaustive depth plus seeded random histories of depth "
                        "4..12, each fed to a fresh real keyed reader (frames signed by TLC); accept/refuse per frame judged by the "
-                       "window monitor with exact 48-bit arithmetic; writer timestamps of 500+ writes per link; distinct = distinct histories")
+                       "window monitor with exact 48-bit arithmetic; on a reader with key AND dialect all pairs and seeded triples over (dialect message | unknown id) x 5 timestamps; writer timestamps of 500+ writes per link; distinct = distinct histories")
     ctx.assumptions += ["the 12 alphabet frames are signed by the TLA+ SHA-256 and re-verified once per trace part"]
